@@ -400,7 +400,11 @@ LIT = ('lit', 'k')
 
 # Suspected library defects awaiting a decision (fix in /repo or entry in known_findings.json). A tag listed here (or
 # named in VF_C08_PENDING) gets its obligations generated; classify() maps their counterexamples to the tag.
-ENABLED_PENDING = ()
+# All seven behaviours below were genuine defects; they are repaired in /repo by `fix:` commits (see known_findings.json,
+# 'fixed'), so their obligations are part of the normal run now and report the defect again if it ever returns.
+ENABLED_PENDING = ('skip-first-output-key-written-literally', 'sink-kwargs-input-keys-fail', 'sink-adds-SELF-to-output-keys',
+                   'select-does-not-reset-output-keys', 'duplicate-key-within-one-assign-accepted', 'skip-counted-as-output-key',
+                   'assign-bare-Index0-key-rejected')
 PENDING_TAGS = {
     'skip-first-output-key-written-literally':
         'select/apply whose FIRST output key is Key.SKIP: the skipped output is stored under a literal "SKIP" key '
@@ -584,7 +588,7 @@ REPR = [
     ('sink', SELF), ('sink', T('a', 'a')),
 ]
 REPR_QUICK = [op for j, op in enumerate(REPR) if j not in (2, 13, 16)]
-REPR_SMALL = [REPR[0], REPR[1], REPR[4], REPR[5], REPR[8], REPR[9], REPR[12], REPR[14], REPR[15], REPR[17], REPR[18]]
+REPR_SMALL = [REPR[0], REPR[1], REPR[4], REPR[5], REPR[8], REPR[9], REPR[12], REPR[14], REPR[15], REPR[17]]
 
 # identity / aliasing family: only pass-through operators and assigns, so every output descends from one caller record
 ASSIGNS = [('assign', 'inc', 'a', 'c'), ('assign', 'inc', 'a', P('m', 't')), ('assign', 'two', 'a', T('c', P('m', 't'))),
